@@ -6,7 +6,7 @@ from __future__ import annotations
 
 import ast
 
-from ..fold import Arr, Folder, Obj, Opaque, Raised, Refuse, Sym
+from ..fold import Arr, Folder, Obj, Opaque, Raised, Refuse, Sym, escapes
 from ..terms import nf
 
 # the documented numbering, bottom-up from shape and dim
@@ -116,6 +116,8 @@ class GridModel:
             ca, cr = a.field(name), r.field(name)
             if ca is None:
                 return (False, dim, "<unset>", "")
+            if escapes(a.trace, ca):
+                return (False, dim, "the table is handed to a call that was not folded", "")
             sa = sorted((nf(t.args[1]), nf(t.args[2])) for t in a.stores(ca))
             sr = sorted((nf(t.args[1]), nf(t.args[2])) for t in r.stores(cr))
             if sa != sr:
